@@ -2367,7 +2367,9 @@ func (resp *Response) writeBodyStream(w *bufio.Writer, sendBody bool) (err error
 			if err == nil && sendBody {
 				err = writeBodyChunked(w, resp.bodyStream)
 			}
-			if err == nil {
+			if err == nil && sendBody {
+				// The trailer section belongs to the chunked body: a response
+				// without a body (HEAD) ends with its header.
 				err = resp.Header.writeTrailer(w)
 			}
 		}
